@@ -19,6 +19,8 @@ prop("C13",
            # the same with sources made of UTF-8 sequences, in the C locale and after setlocale(LC_ALL, "C.utf8") (skipped with a note where that locale is missing)
            dict(name="h_bounded_u8", binary="h_bounded", sources=["harness/h_bounded.c"], profile="asan", args={"quick": ["--L=6", "--src=utf8"], "thorough": ["--L=9", "--src=utf8"]}),
            dict(name="h_bounded_u8loc", binary="h_bounded", sources=["harness/h_bounded.c"], profile="asan", args={"quick": ["--L=6", "--src=utf8", "--locale=C.utf8"], "thorough": ["--L=9", "--src=utf8", "--locale=C.utf8"]}),
+           # plain -O2 build: the in-place helpers on a string of more than 2^31 characters
+           dict(name="h_bounded_huge", sources=["harness/h_bounded.c"], profile="plain2", args={"quick": ["--only=huge", "--workers=2", "--hang-cpu=300"], "thorough": ["--only=huge", "--workers=2", "--hang-cpu=300"]}),
            dict(name="h_compat", sources=["harness/h_compat.c"], profile="asan", args={})],
      deadline={"quick": 120, "thorough": 1200})
 
@@ -285,7 +287,7 @@ prop("C20",
      rule="for each build DEBUG in {undefined,0,1,2,3,4,5,9999} the probe program and the library are compiled with that DEBUG; every (macro probe x runtime level in {0..6,9999}) cell and every (output primitive x level x silent) cell runs in a child: "
           "bytes written to stderr, side-effect counters in the macro arguments/conditions, the return value, whether the function continued and the exit status must match the gate model; a condition whose text holds \"100%%\" keeps both percent signs in the diagnostic; thorough adds one real in-library statement per D_* family; "
           "non-trivial = every executed cell",
-     bounds={"quick": "10 builds x 35 probes x 10 levels (0..6, 9999, 0x80000000, 0xffffffff) x silent {off,TRUE,0x100} x history {fresh process, after four refused output calls}", "thorough": "same + 4 in-library statements per build"},
+     bounds={"quick": "10 builds x 43 probes x 10 levels (0..6, 9999, 0x80000000, 0xffffffff) x silent {off,TRUE,0x100} x history {fresh process, after four refused output calls}", "thorough": "same + 4 in-library statements per build"},
      runs=[dict(name="h_gate_" + b, sources=["harness/h_gate.c"], profile=b, args={"quick": ["--build=" + b], "thorough": ["--build=" + b]}) for b in _GATE_BUILDS],
      deadline={"quick": 300, "thorough": 1200})
 
